@@ -4,7 +4,7 @@ save_every iterations that a fresh sampler can load).
 
 The option product is covered by a greedy t-wise covering array (t = 2 by default, t = 3 with {"strength": 3}); the factors and
 levels are listed in FACTORS.  Small problems (2-d Gaussian, n_total = 64), fixed seeds: a bounded stand-in, never a proof."""
-import json, sys, os, itertools, tempfile, shutil, warnings, atexit
+import json, sys, os, itertools, tempfile, shutil, warnings, atexit, signal
 import numpy as np
 import tempest
 
@@ -98,7 +98,30 @@ def build(cfg, out):
     return tempest.Sampler(prior, like, **kw)
 
 
+PER_RUN_SECONDS = 180
+
+
+class _Hang(Exception):
+    pass
+
+
+def _alarm(signum, frame):
+    raise _Hang()
+
+
 def run_one(cfg, k):
+    """one configuration, with a wall-clock cap: a run that does not complete is a failure of 'runs to completion'"""
+    signal.signal(signal.SIGALRM, _alarm)
+    signal.alarm(PER_RUN_SECONDS)
+    try:
+        return _run_one(cfg, k)
+    except _Hang:
+        return f"run did not complete within {PER_RUN_SECONDS} s (n_total=64, 16 particles, 2-d target: normally < 2 s)"
+    finally:
+        signal.alarm(0)
+
+
+def _run_one(cfg, k):
     out = os.path.join(BASE, f"cfg{k}")
     try:
         s = build(cfg, out)
